@@ -201,6 +201,9 @@ def distribution(outs):
 # ---------------------------------------------------------------------------------------------------------------
 PART_TARGETS = ["theories/Properties/C11.vo", "theories/Model/L1InfoCases.vo"]
 RULES = {
+    "c11": ("the L1 histories of the C11 check (info updates, root announcements, batch verifications for several rollups with repeated / zero / "
+            "unchanged exit roots, several events per block, restarts): at every snapshot every served proof of the L1 info tree and of the ROLLUP "
+            "EXIT tree (the updatable tree) is recomputed against the root it was served for, and roots / leaves are compared with the reference"),
     "c04": ("random L1 histories (info updates with matching V2 announcements, batch verifications with zero / unchanged / repeated exit roots, "
             "InitL1InfoRootMap) with 1-3 rounds of {blocks, reorg at the first block / inside / at the tip / above the tip, optional nested "
             "reorg, optional restart, snapshot, continuation on the new fork (every second time re-including the logs of the first dropped "
@@ -220,6 +223,8 @@ def cases_n(tier):
 
 
 def _nontrivial(prop, o):
+    if prop == "c11":
+        return o["in"]["ops"] if any(s.get("last_rollup") for s in o.get("snaps") or []) else None
     if prop == "c07":
         return o["in"]["ops"] if any(r == "fault" for r in o.get("res") or []) else None
     seen = set()
@@ -231,7 +236,7 @@ def _nontrivial(prop, o):
     return None
 
 
-def _run_part(chk, prop):
+def _run_part(chk, prop, spec="spec_asif", skip=None):
     pid = chk.pid
     tag = "l1info_" + prop
     cov = {"rule": RULES[prop], "harness": "harness/l1info -prop " + prop}
@@ -286,12 +291,16 @@ def _run_part(chk, prop):
         chk.obligation_broken("harness l1info reported errors: %s" % errs[:3], theorem="correspondence harness l1info -prop " + prop)
         return
     shard = max(1, (len(outs) + 5) // 6)
-    mism, viol, log = vlib.eval_cases(pid + tag.replace("_", ""), IMPORTS, [coq_case(o) for o in outs], "lcase", "corr", "spec_asif",
+    mism, viol, log = vlib.eval_cases(pid + tag.replace("_", ""), IMPORTS, [coq_case(o) for o in outs], "lcase", "corr", spec,
                                       shard_size=shard)
     if mism is None:
         chk.obligation_broken("L1 info store case file did not evaluate (model broken or transcription error):\n" + log[-2500:],
                               theorem="correspondence L1InfoCases.corr / spec_asif")
         return
+    if skip is not None and mism is not None:
+        # cases of a finding recorded under another property (listed there, reported there): not this part's business
+        mism = [i for i in mism if not skip(outs[i])]
+        viol = [i for i in viol if not skip(outs[i])]
     keys = {json.dumps(k, sort_keys=True) for k in (_nontrivial(prop, o) for o in outs) if k is not None}
     cov.update(evaluations=len(outs), distinct_nontrivial=len(keys), traces_validated_against_impl=len(outs) - len(mism),
                correspondence_mismatches=len(mism), spec_violations_raw=len(viol), mismatch_indices=mism[:20], violation_indices=viol[:20],
@@ -301,8 +310,9 @@ def _run_part(chk, prop):
         x = outs[viol[0]]
         path = vlib.write_replay(pid, chk.seed, "input", dict(
             case=x, harness=tag, finding_key=None, failing_cases=len(viol),
-            what="L1 info tree store (l1infotreesync processor): spec_asif is false on what the implementation returned for this input: %s"
-                 % ("a facade query of the faulted run answers differently from the fault-free twin run" if prop == "c07"
+            what="L1 info tree store (l1infotreesync processor): %s is false on what the implementation returned for this input: %s"
+                 % (spec, "a facade query of the faulted run answers differently from the fault-free twin run" if prop == "c07"
+                    else "a served proof of the L1 info tree / rollup exit tree does not verify, or a root / leaf differs from the reference" if prop == "c11"
                     else "a facade query after a reorg answers differently from the twin that never saw the dropped blocks")))
         chk.violations.append((path, ""))
     else:
@@ -323,3 +333,10 @@ def run_c04_part(chk):
 def run_c07_part(chk):
     """C07 over the L1 info tree store: storage faults + retry vs a fault-free twin. Mutates chk (violations, cov)."""
     _run_part(chk, "c07")
+
+
+def run_c08_part(chk):
+    """C08 over the L1 info tree syncer's two trees (append-only L1 info tree, updatable rollup exit tree): every proof served at every
+    snapshot verifies against its root (spec_c11's proofs_ok / rollup_ok). Cases of C11's recorded finding are skipped (reported there)."""
+    import c11
+    _run_part(chk, "c11", spec="spec_c11", skip=lambda o: c11.finding_key(o) is not None)
